@@ -1,21 +1,44 @@
 /* e_crash - C17: crash while adding objects.  For an append-only session on a pre-populated file the ordered
  * log of physical writes (stream offset, bytes) is recorded through the stdio interposition (unbuffered stream:
  * each library write is one physical write).  Then
- *  (1) no write issued before the descriptor flush starts (the first write into a pre-existing descriptor block; at the latest the
- *      flushing call Hclose/Hsync/Vend/SDend/GRend/ANend for sessions that flush nothing) may start below E0 =
- *      end of everything stored before the session (max over descriptor blocks and element extents, computed
- *      by an independent DD-chain parser in this file)            key crash-early-overwrite:<workload>:<api>
+ *  (1) until the descriptor flush starts - the first write of a WHOLE header or a WHOLE descriptor list of a pre-existing descriptor
+ *      block (the two writes HTPsync issues per block) inside a flushing call Hclose/Hsync/Vend/SDend/GRend/ANend - no write may start
+ *      below E0 = end of everything stored before the session (max over descriptor blocks and element extents, computed by an
+ *      independent DD-chain parser in this file)                   key crash-early-overwrite:<workload>:<api>
+ *      and a write that changes a single descriptor or the link field of a pre-existing descriptor block in place (write-through: what
+ *      the library does with descriptor caching off) is never part of a flush: key crash-write-through:<workload>:<api>
  *  (2) for EVERY prefix of the log the image (old file + prefix) is materialised and, in a forked child,
  *      opened with the library and every pre-existing descriptor's element is read back and compared with
  *      the pre-session content.  For workloads that only add low-level elements / Vdatas / Vgroups /
  *      annotations (flush_safe) all prefixes are checked, for the others (SD, GR: metadata is replaced at
  *      close) the prefixes that end before the descriptor flush starts (also those inside SDend/GRend).
  *                                      keys crash-unopenable:<workload>, crash-old-object-damaged:<workload>
- * Cases 0..NW-1: the append-only workloads of workloads.h; cases >= NW: seeded random H-level sessions
- * (ndds in {4,5,7,16}, 1..14 new elements incl. linked-block and compressed ones => 0..3 new DD blocks).
+ *  (3) THE STATE OF THE FILE RECORD AT THE START OF THE SESSION.  The session runs in a context: a program of record-level operations
+ *      executed before it (and, for the random sessions, in the middle of it) and undone after it -
+ *        o<i><r|w>  one more id on the same path, read-only or read/write, through Hopen (h), SDstart (s), Hopen+Vstart (v),
+ *                   Hopen+GRstart (g), Hopen+ANstart (a);  x<k> close the k-th of them;  r<k> read through it (directory walk, tag
+ *                   counts, Vgroup/Vdata/SDS/image enumeration: builds the tag trees and interface tables);
+ *        c<k><0|1>  Hcache on that id;  C<0|1>  Hcache(CACHE_ALL_FILES)
+ *      so that the session's own open finds no record, the record of a reader (same Hopen table entry, upgraded to write access), of
+ *      an idle writer, of several ids, of an interface that is already started, one that was released by an earlier session of the
+ *      process, one whose caching was switched off and on again.  Every context ends with descriptor caching ON for the record (the
+ *      premise "default descriptor caching" of the property); the writes of the session AND of the closing calls of the other ids are
+ *      one log, judged by (1) and (2).  The record (refcount, write access, cache flag; found by path in the file-id group) is printed
+ *      after every context operation, at the FIRST PHYSICAL WRITE of the session (`sopen`) and after its last call (`sclose`) as T lines:
+ *          T crash open <i> <r|w> | close <i> | cache <0|1> | sopen | sclose  =>  <refcount> <write> <cache> | none     T crash cacheall <0|1> => ok
+ *      h4model (H4.DDOpen.OpenTab, driver H4.Driver.Crash) recomputes them: the hypothesis `cache = true` of the C17 theorems is checked
+ *      against the implementation at the start of every session.  Implementation-side: no write of the session may be issued with the
+ *      record's cache flag off                                     key crash-session-uncached:<workload>
+ *      and the context operations before the session must not change the file          key crash-ctx-writes
+ * Cases 0..NW-1: the append-only workloads of workloads.h on their own; NW..2NW-1: each of them in a context of the reader-first
+ * family; 2NW..3NW-1: each in a context of the other families (idle writer, earlier sessions, cache settings), the contexts rotating with
+ * the seed; the next |CX_READER|+|CX_OTHER| cases: EVERY listed context once, around a seeded random H-level session (ndds in {4,5,7,16},
+ * free descriptor slots, 1..14 new elements incl. linked-block and compressed ones => 0..3 new DD blocks); all further cases: random H-level
+ * sessions in listed or randomly generated contexts, with context operations in mid-session.
  */
 #include "wrap.h"
 #include "workloads.h"
+#include "hfile_priv.h"
 #include "hk.h"
 #include <sys/wait.h>
 #include <fcntl.h>
@@ -68,6 +91,21 @@ static int in_dd_block(const unsigned char *b, long n, long woff, long wlen)
     return 0;
 }
 
+/* is [off, off+len) exactly the header or exactly the descriptor list of a descriptor block of the image?  These are the two writes HTPsync
+   issues for a dirty block; a single descriptor (12 bytes inside the list) or the link field alone (4 bytes at block + 2) is write-through */
+static int flush_shaped(const unsigned char *b, long n, long woff, long wlen)
+{
+    long off = 4; int guard = 0;
+    while (off != 0 && guard++ < 10000) {
+        if (off + 6 > n) return 0;
+        long ndds = be16(b + off), next = (long)be32(b + off + 2);
+        if (woff == off && wlen == 6) return 1;
+        if (woff == off + 6 && wlen == 12 * ndds) return 1;
+        off = next;
+    }
+    return 0;
+}
+
 typedef struct { uint16 tag, ref; int32 len; unsigned long sum; } objrec;
 static int snapshot(const char *path, objrec *out, int cap)
 {
@@ -100,11 +138,175 @@ static int is_closer(const char *api)
     return 0;
 }
 
-/* per-write API context, recorded next to the write log */
-static char (*wctx)[24]; static long wctx_cap;
+
+/* ------------------------------------------------------------------ (3) the file record and the context of the session */
+static const char *cx_path;          /* the file of the case */
+static filerec_t  *cx_fr;            /* its record, once known (looked up by path in the file-id group; NULL = not known / released) */
+static int  *wcache; static long wcache_cap;     /* per logged write: the record's cache flag when the write was issued (-1 = no record found) */
+static int   so_seen, so_rc, so_w, so_c;         /* the record at the first physical write of the session */
+static int   so_printed;
+static int   cx_in_session;
+
+static filerec_t *cx_lookup(void) { return cx_path ? (filerec_t *)HAsearch_atom(FIDGROUP, HPcompare_filerec_path, cx_path) : NULL; }
+/* called inside the wrapped fwrite.  The record is looked up through the library only while it is not known (HAsearch_atom clears the
+   error stack: at most once per session, at its first write); afterwards the pointer is read directly. */
+static void cx_on_write(long j)
+{
+    if (j >= wcache_cap) { wcache_cap = wcache_cap ? wcache_cap * 2 : 4096; while (j >= wcache_cap) wcache_cap *= 2; wcache = realloc(wcache, sizeof(int) * (size_t)wcache_cap); }
+    if (!cx_fr) cx_fr = cx_lookup();
+    wcache[j] = cx_fr ? (cx_fr->cache ? 1 : 0) : -1;
+    if (cx_in_session && !so_seen && cx_fr) { so_seen = 1; so_rc = (int)cx_fr->refcount; so_w = (cx_fr->access & DFACC_WRITE) ? 1 : 0; so_c = cx_fr->cache ? 1 : 0; }
+}
+static void cx_print_state(void)
+{
+    cx_fr = cx_lookup();
+    if (!cx_fr) printf("none\n"); else printf("%d %d %d\n", (int)cx_fr->refcount, (cx_fr->access & DFACC_WRITE) ? 1 : 0, cx_fr->cache ? 1 : 0);
+}
+/* the `sopen` line belongs in front of every context line issued in mid-session */
+static void cx_flush_sopen(void)
+{
+    if (!cx_in_session || so_printed) return;
+    so_printed = 1;
+    if (so_seen) printf("T crash sopen => %d %d %d\n", so_rc, so_w, so_c); else { printf("T crash sopen => "); cx_print_state(); }
+}
+
+typedef struct { char iface; int write; int32 fid, sub; int live; } held_t;
+#define CX_MAXH 8
+static held_t held[CX_MAXH]; static int nheld;
+static int cx_defcache = 1;          /* what the engine last passed to Hcache(CACHE_ALL_FILES) (the library starts with caching on: Tie A DEFAULT_CACHE) */
+static int cx_bad, cx_writer_closed;   /* an id with write access was closed by the context: a complete earlier session, which may store something (GRend does) */
+
+static void cx_open(char iface, int write)
+{
+    if (nheld >= CX_MAXH) return;
+    held_t *h = &held[nheld]; int acc = write ? DFACC_RDWR : DFACC_READ;
+    h->iface = iface; h->write = write; h->sub = FAIL; h->live = 0;
+    cx_flush_sopen();
+    const char *save = wr_ctx; wr_ctx = "ctx-open";
+    if (iface == 's') h->fid = SDstart(cx_path, acc);
+    else {
+        h->fid = Hopen(cx_path, acc, 0);
+        if (h->fid != FAIL) {
+            if (iface == 'v' && Vstart(h->fid) == FAIL) cx_bad++;
+            if (iface == 'g' && (h->sub = GRstart(h->fid)) == FAIL) cx_bad++;
+            if (iface == 'a' && (h->sub = ANstart(h->fid)) == FAIL) cx_bad++;
+        }
+    }
+    wr_ctx = save;
+    if (h->fid == FAIL) { cx_bad++; hk_fail("crash-ctx-open", "one more %s id (interface %c) on the file of the session is refused", write ? "read/write" : "read-only", iface); return; }
+    h->live = 1; nheld++;
+    printf("T crash open %c %c => ", iface, write ? 'w' : 'r'); cx_print_state();
+    hk_stat(write ? "ctx_open_w" : "ctx_open_r", 1);
+}
+/* read through a held id: builds the tag trees / the tables of the interface */
+static void cx_reads(int i)
+{
+    if (i < 0 || i >= nheld || !held[i].live) return;
+    held_t *h = &held[i]; const char *save = wr_ctx; wr_ctx = "ctx-read";
+    if (h->iface == 's') {
+        int32 nd = 0, na = 0; SDfileinfo(h->fid, &nd, &na);
+        for (int32 k = 0; k < nd && k < 8; k++) { int32 sds = SDselect(h->fid, k); if (sds != FAIL) { char nm[H4_MAX_NC_NAME + 1]; int32 rk, dm[H4_MAX_VAR_DIMS], nt, a; SDgetinfo(sds, nm, &rk, dm, &nt, &a); SDendaccess(sds); } }
+    }
+    else {
+        uint16 t = 0, r = 0; int32 o, l; int n = 0;
+        while (Hfind(h->fid, DFTAG_WILDCARD, DFREF_WILDCARD, &t, &r, &o, &l, DF_FORWARD) != FAIL && n++ < 4096) {}
+        Hnumber(h->fid, DFTAG_WILDCARD); Hnumber(h->fid, DFTAG_VG); Hexist(h->fid, DFTAG_VERSION, 1);
+        if (h->iface == 'v') {
+            int32 ref = -1; n = 0;
+            while ((ref = Vgetid(h->fid, ref)) != FAIL && n++ < 64) { int32 vg = Vattach(h->fid, ref, "r"); if (vg != FAIL) { char nm[VGNAMELENMAX + 1]; Vgetname(vg, nm); Vntagrefs(vg); Vdetach(vg); } }
+            ref = -1; n = 0;
+            while ((ref = VSgetid(h->fid, ref)) != FAIL && n++ < 64) { int32 vs = VSattach(h->fid, ref, "r"); if (vs != FAIL) { int32 ne = 0; VSQuerycount(vs, &ne); VSdetach(vs); } }
+        }
+        if (h->iface == 'g' && h->sub != FAIL) { int32 ni = 0, na = 0; GRfileinfo(h->sub, &ni, &na); for (int32 k = 0; k < ni && k < 8; k++) { int32 ri = GRselect(h->sub, k); if (ri != FAIL) GRendaccess(ri); } }
+        if (h->iface == 'a' && h->sub != FAIL) { int32 a, b, c, d; ANfileinfo(h->sub, &a, &b, &c, &d); }
+    }
+    wr_ctx = save;
+    hk_stat("ctx_reads", 1);
+}
+static void cx_close(int i)
+{
+    if (i < 0 || i >= nheld || !held[i].live) return;
+    held_t *h = &held[i]; int rc = 0; const char *save = wr_ctx;
+    cx_flush_sopen();
+    if (h->iface == 's') { wr_ctx = "SDend"; if (SDend(h->fid) == FAIL) rc++; }
+    else {
+        if (h->iface == 'v') { wr_ctx = "Vend"; if (Vend(h->fid) == FAIL) rc++; }
+        if (h->iface == 'g' && h->sub != FAIL) { wr_ctx = "GRend"; if (GRend(h->sub) == FAIL) rc++; }
+        if (h->iface == 'a' && h->sub != FAIL) { wr_ctx = "ANend"; if (ANend(h->sub) == FAIL) rc++; }
+        wr_ctx = "Hclose"; if (Hclose(h->fid) == FAIL) rc++;
+    }
+    wr_ctx = save;
+    h->live = 0; if (h->write) cx_writer_closed = 1;
+    if (rc) { cx_bad++; hk_fail("crash-ctx-close", "closing the %s id (interface %c) held beside the session fails", h->write ? "read/write" : "read-only", h->iface); }
+    printf("T crash close %c => ", h->iface); cx_print_state();
+}
+static void cx_cache(int i, int on)
+{
+    if (i < 0 || i >= nheld || !held[i].live || held[i].iface == 's') return;
+    cx_flush_sopen();
+    const char *save = wr_ctx; wr_ctx = "Hcache";
+    if (Hcache(held[i].fid, on) == FAIL) cx_bad++;
+    wr_ctx = save;
+    printf("T crash cache %d => ", on); cx_print_state();
+    hk_stat("ctx_hcache", 1);
+}
+static void cx_cacheall(int on)
+{
+    cx_flush_sopen();
+    Hcache(CACHE_ALL_FILES, on); cx_defcache = on;
+    printf("T crash cacheall %d => ok\n", on);
+    hk_stat("ctx_hcache_all", 1);
+}
+/* run a context program: tokens o<i><r|w>  x<k>  r<k>  c<k><0|1>  C<0|1> */
+static void cx_run(const char *prog)
+{
+    for (const char *p = prog; *p; ) {
+        while (*p == ' ') p++;
+        if (!*p) break;
+        if (p[0] == 'o' && p[1] && p[2]) { cx_open(p[1], p[2] == 'w'); p += 3; }
+        else if (p[0] == 'x' && p[1]) { cx_close(p[1] - '0'); p += 2; }
+        else if (p[0] == 'r' && p[1]) { cx_reads(p[1] - '0'); p += 2; }
+        else if (p[0] == 'c' && p[1] && p[2]) { cx_cache(p[1] - '0', p[2] - '0'); p += 3; }
+        else if (p[0] == 'C' && p[1]) { cx_cacheall(p[1] - '0'); p += 2; }
+        else { cx_bad++; break; }
+    }
+}
+/* the reader-first family: when the session opens the file for writing the path's record exists and has NO write access */
+static const char *CX_READER[] = {
+    "ohr", "osr", "ovr r0", "ogr r0", "oar r0", "ohr r0", "ohr ohr", "osr ohr r1", "ovr osr r0 r1", "ohr c00 c01", "ohr x0 ohr",
+    "ohr r0 x0 ohr", "C1 ohr", "ohr ovr x0",
+};
+/* the other families: an idle writer, several ids, a record that got write access from an id that is gone again, records released by
+   earlier sessions of the process, cache settings made before */
+static const char *CX_OTHER[] = {
+    "ohw", "osw", "ovw r0", "ogw", "ohw ohr", "ohr ohw", "ohr ohw x1", "ohr ohw x0", "ohr r0 x0", "ohw x0", "osr r0 x0", "ovw r0 x0", "C1",
+    "ohw c00 c01", "ohr ohw c10 c11", "C0 ohr c01 C1", "C0 C1 ohr", "ohw ohw", "osw ohr r1", "ohw osr r1",
+};
+static const char *cx_random(char *buf, size_t n)
+{
+    static const char ifs[] = "hhhhhssvvga";
+    int k = (int)hk_range(0, 3), nh = 0; size_t u = 0; buf[0] = 0;
+    for (int i = 0; i < k && u + 16 < n; i++) {
+        int what = (int)hk_range(0, 9);
+        if (what < 6 || nh == 0) { u += (size_t)snprintf(buf + u, n - u, "o%c%c ", ifs[hk_range(0, (long)sizeof ifs - 2)], hk_chance(60) ? 'r' : 'w'); nh++; }
+        else if (what < 8) u += (size_t)snprintf(buf + u, n - u, "r%d ", (int)hk_range(0, nh - 1));
+        else if (what < 9) { int j = (int)hk_range(0, nh - 1); u += (size_t)snprintf(buf + u, n - u, "c%d0 c%d1 ", j, j); }
+        else u += (size_t)snprintf(buf + u, n - u, "x%d ", (int)hk_range(0, nh - 1));
+    }
+    return buf;
+}
+/* one context operation in the middle of a session (random sessions only) */
+static void cx_mid(void)
+{
+    int what = (int)hk_range(0, 9);
+    if (what < 4 && nheld < CX_MAXH) cx_open(hk_chance(70) ? 'h' : (hk_chance(50) ? 'v' : 's'), hk_chance(40));
+    else if (what < 7 && nheld > 0) cx_close((int)hk_range(0, nheld - 1));
+    else if (nheld > 0) cx_reads((int)hk_range(0, nheld - 1));
+    hk_stat("ctx_mid_ops", 1);
+}
 
 /* random H-level append-only session */
-static int rnd_ndds;
+static int rnd_ndds, rnd_mid;
 static int prep_rand(const char *path)
 {
     uint8 b[400]; int32 fid = Hopen(path, DFACC_CREATE, (int16)rnd_ndds); if (fid == FAIL) return -1;
@@ -114,6 +316,8 @@ static int prep_rand(const char *path)
     /* descriptors that bring no data of their own (aliases made by Hdupdd, as DFPaddpal / GR palettes do): enough of them open a new
        descriptor block that is then the LAST thing in the file - the end of stored data is the end of that block, not of an element */
     if (hk_chance(50)) { int m = (int)hk_range(1, rnd_ndds + 2); for (int j = 0; j < m; j++) Hdupdd(fid, 3500, (uint16)(j + 1), 3000, 1); }
+    /* free slots in the stored descriptor blocks: the descriptors of the session go THERE first (in memory, until the flush) */
+    if (n > 1 && hk_chance(40)) { int m = (int)hk_range(1, n - 1); for (int j = 0; j < m; j++) Hdeldd(fid, (uint16)(3000 + (n - 1 - j) % 2), (uint16)(n - j)); }
     return Hclose(fid);
 }
 static int run_rand(const char *path)
@@ -126,8 +330,9 @@ static int run_rand(const char *path)
         int kind = (int)hk_range(0, 9);
         if (kind < 6) CK(Hputelement(fid, 3200, (uint16)(i + 1), b, (int32)hk_range(1, 600)));
         else if (kind < 8) { int32 aid; ID(aid, HLcreate(fid, 3300, (uint16)(i + 1), (int32)hk_range(4, 64), (int32)hk_range(1, 3))); if (aid == FAIL) wl_nfail++; else { CK(Hwrite(aid, (int32)hk_range(1, 400), b)); CK(Hendaccess(aid)); } }
-        else { int32 aid; ID(aid, Hstartwrite(fid, 3400, (uint16)(i + 1), (int32)hk_range(10, 300))); if (aid == FAIL) wl_nfail++; else { CK(Hwrite(aid, 10, b)); CK(Hendaccess(aid)); } }
+        else { int32 aid; ID(aid, Hstartwrite(fid, 3400, (uint16)(i + 1), (int32)hk_range(10, 300))); if (aid == FAIL) wl_nfail++; else { if (hk_chance(30)) CK(Hsetaccesstype(aid, DFACC_PARALLEL)); CK(Hwrite(aid, 10, b)); CK(Hendaccess(aid)); } }
         if (hk_chance(10)) CK(Hsync(fid));
+        if (rnd_mid && hk_chance(15)) cx_mid();
     }
     CK(Hclose(fid));
 done: return wl_nfail;
@@ -171,56 +376,105 @@ static void run_case(int k)
     static const workload_t *ao[NWORKLOADS]; int nao = 0;
     for (int i = 0; i < NWORKLOADS; i++) if (WORKLOADS[i].append_only) ao[nao++] = &WORKLOADS[i];
     workload_t rnd = {"h_rand", prep_rand, run_rand, 1, 1, 0};
-    const workload_t *w;
-    if (k < nao) w = ao[k]; else { w = &rnd; static const int nd[] = {4, 5, 7, 16}; rnd_ndds = HK_PICK(nd); }
+    const workload_t *w; const char *prog = ""; char pbuf[128];
+    rnd_mid = 0;
+    const int nR = (int)(sizeof CX_READER / sizeof CX_READER[0]), nO = (int)(sizeof CX_OTHER / sizeof CX_OTHER[0]);
+    static const int nd[] = {4, 5, 7, 16};
+    if (k < nao) w = ao[k];
+    else if (k < 2 * nao) { w = ao[k - nao]; prog = CX_READER[(k + (int)(hk_seed0 % 1000)) % nR]; }          /* rotation: nao different contexts per seed */
+    else if (k < 3 * nao) { w = ao[k - 2 * nao]; prog = CX_OTHER[(k + (int)(hk_seed0 % 1000)) % nO]; }
+    else if (k < 3 * nao + nR + nO) {                                   /* every listed context once, around a random H-level session */
+        int c = k - 3 * nao; w = &rnd; rnd_ndds = HK_PICK(nd);
+        prog = c < nR ? CX_READER[c] : CX_OTHER[c - nR];
+        rnd_mid = hk_chance(30);
+    }
+    else {
+        w = &rnd; rnd_ndds = HK_PICK(nd);
+        int fam = (int)hk_range(0, 9);
+        if (fam < 2) prog = "";
+        else if (fam < 4) prog = HK_PICK(CX_READER);
+        else if (fam < 6) prog = HK_PICK(CX_OTHER);
+        else prog = cx_random(pbuf, sizeof pbuf);
+        rnd_mid = fam >= 2 && hk_chance(50);
+    }
     char path[600], img[600];
     snprintf(path, sizeof path, "%s", hk_tmp("c.hdf")); snprintf(img, sizeof img, "%s", hk_tmp("img.hdf"));
     unlink(path);
-    wr_enabled = 0;
+    wr_enabled = 0; wr_on_write = NULL;
     if (w->prep(path) == FAIL) { hk_fail("crash-prep", "%s", w->name); return; }
-    long n0; unsigned char *base = slurp(path, &n0);
-    long E0 = stored_end(base, n0);
-    if (E0 < 0) { hk_fail("crash-parse", "%s: the pre-session file does not parse", w->name); free(base); return; }
+    long n00; unsigned char *base0 = slurp(path, &n00);
     static objrec old[4096]; int nold = snapshot(path, old, 4096);
-    if (nold < 0) { hk_fail("crash-prep", "%s snapshot", w->name); free(base); return; }
+    if (nold < 0) { hk_fail("crash-prep", "%s snapshot", w->name); free(base0); return; }
 
-    /* the session, with write logging; remember the API context of every write */
-    wr_reset(); wr_keep_bytes = 1; wr_enabled = 1;
-    long before = 0;
-    /* hook: record ctx lazily after the run from wr_log order using a parallel array filled by polling is not
-       possible; instead run the session in slices: wrap.h logs wr_ctx pointer per write through wr_log[].stream
-       high bits.  Simpler: keep a second pass - see wr_ctx_of() below. */
+    /* the context, then the session, then the other ids are closed: ONE write log; remember the record's cache flag at every write */
+    cx_path = path; cx_fr = NULL; nheld = 0; cx_bad = 0; cx_writer_closed = 0; so_seen = so_printed = 0; cx_in_session = 0;
+    wr_reset(); wr_keep_bytes = 1; wr_enabled = 1; wr_on_write = cx_on_write;
+    cx_run(prog);
+    long npre = wr_nlog;
+    long n0; unsigned char *base = slurp(path, &n0);
+    /* ids that are merely open (and read-only ids that were closed again) leave the file as it is; a read/write id that the context closed is an
+       earlier session of its own: what it stored (GRend of an idle writer does store) is part of the file the session finds - the objects stored
+       by prep must still be there (checked on the first image below) */
+    if (!cx_writer_closed && (npre != 0 || n0 != n00 || memcmp(base, base0, (size_t)n0) != 0))
+        hk_fail("crash-ctx-writes", "%s: opening further ids on the stored file (context '%s') issued %ld writes / changed the file", w->name, prog, npre);
+    free(base0);
+    long E0 = stored_end(base, n0);
+    if (E0 < 0) {
+        hk_fail("crash-parse", "%s: the pre-session file does not parse", w->name);
+        for (int i = nheld - 1; i >= 0; i--) cx_close(i);
+        if (cx_defcache != 1) cx_cacheall(1);
+        free(base); wr_enabled = 0; wr_on_write = NULL; cx_path = NULL; cx_fr = NULL; return;
+    }
+    cx_in_session = 1;
     int nf = w->run(path);
-    wr_enabled = 0;
-    (void)before;
-    if (nf != 0) { hk_fail("crash-session-fails", "%s: %d API failures in the fault-free session", w->name, nf); free(base); return; }
+    cx_flush_sopen();
+    cx_in_session = 0;
+    printf("T crash sclose => "); cx_print_state();
+    long nsess = wr_nlog;
+    { int lifo = hk_chance(50); for (int i = 0; i < nheld; i++) cx_close(lifo ? nheld - 1 - i : i); }
+    if (cx_defcache != 1) cx_cacheall(1);
+    wr_enabled = 0; wr_on_write = NULL; cx_path = NULL; cx_fr = NULL;
+    if (nf != 0 || cx_bad) { hk_fail("crash-session-fails", "%s: %d API failures in the fault-free session (context '%s', %d context failures)", w->name, nf, prog, cx_bad); free(base); return; }
     long nw = wr_nlog;
-    printf("INFO workload=%s E0=%ld file0=%ld writes=%ld old_objects=%d\n", w->name, E0, n0, nw, nold);
-    hk_stat("sessions", 1); hk_stat("writes", nw);
+    printf("INFO workload=%s ctx='%s' mid=%d E0=%ld file0=%ld writes=%ld (session %ld, context before %ld) old_objects=%d\n", w->name, prog, rnd_mid, E0, n0, nw, nsess - npre, npre, nold);
+    hk_stat("sessions", 1); hk_stat("writes", nw); if (*prog) hk_stat("sessions_in_context", 1);
 
-    /* (1) early overwrite: until the descriptor flush starts (the first write into a descriptor block that existed before the session -
-       wherever that happens, also INSIDE SDend/GRend/Vend/Hclose) every write must lie at or beyond E0 */
+    /* (3) default descriptor caching: nobody switched it off, so every write must have been issued with the record's cache flag on */
+    for (long j = npre; j < nw; j++)
+        if (wcache[j] == 0) { char key[96]; snprintf(key, sizeof key, "crash-session-uncached:%s", w->name); hk_fail(key, "write %ld of %ld (off %ld len %ld in %s) is issued with descriptor caching OFF for the file record although caching was never switched off (context '%s')", j, nw, wr_log[j].off, wr_log[j].len, wr_log[j].ctx, prog); break; }
+
+    /* (1) early overwrite: until the descriptor flush starts (the first whole-header / whole-list write of a descriptor block that existed before
+       the session, inside a flushing call - also INSIDE SDend/GRend/Vend/Hclose) every write must lie at or beyond E0; a descriptor or link field
+       changed in place is write-through, never the flush */
     long first_closer = nw, first_flush = nw;
-    for (long j = 0; j < nw; j++) if (is_closer(wr_log[j].ctx)) { first_closer = j; break; }
-    for (long j = 0; j < nw; j++) if (in_dd_block(base, n0, wr_log[j].off, wr_log[j].len)) { first_flush = j; break; }
-    if (first_flush < first_closer) first_closer = first_flush;      /* an explicit Hsync-less flush: never count writes after it as "early" */
-    long early_limit = first_flush > first_closer ? first_flush : first_closer;
-    for (long j = 0; j < early_limit; j++)
-        if (wr_log[j].off < E0) { char key[128]; snprintf(key, sizeof key, "crash-early-overwrite:%s:%s", w->name, wr_log[j].ctx); hk_fail(key, "write %ld of %ld (off %ld len %ld) lands below E0=%ld before the descriptor flush (first flush write %ld, first flushing call at write %ld)", j, nw, wr_log[j].off, wr_log[j].len, E0, first_flush, first_closer); break; }
-    hk_stat("writes_before_flush", early_limit);
+    for (long j = npre; j < nw; j++) if (is_closer(wr_log[j].ctx)) { first_closer = j; break; }
+    for (long j = npre; j < nw; j++) if (wr_log[j].len > 0 && flush_shaped(base, n0, wr_log[j].off, wr_log[j].len)) { first_flush = j; break; }
+    long early_limit = first_flush;
+    for (long j = npre; j < nw; j++) {
+        if (j >= first_flush && j >= first_closer) break;            /* the flush, inside a flushing call */
+        if (wr_log[j].len <= 0 || wr_log[j].off >= E0) continue;
+        char key[128];
+        int wt = in_dd_block(base, n0, wr_log[j].off, wr_log[j].len) && !flush_shaped(base, n0, wr_log[j].off, wr_log[j].len);
+        snprintf(key, sizeof key, "%s:%s:%s", wt ? "crash-write-through" : "crash-early-overwrite", w->name, wr_log[j].ctx);
+        hk_fail(key, "write %ld of %ld (off %ld len %ld) lands below E0=%ld %s (first flush write %ld, first flushing call at write %ld, context '%s')", j, nw, wr_log[j].off, wr_log[j].len, E0,
+                wt ? "inside a stored descriptor block and is neither its whole header nor its whole descriptor list: a descriptor / link written in place instead of deferred to the flush"
+                   : (j < first_closer ? "before any flushing call" : "before the descriptor flush"), first_flush, first_closer, prog);
+        break;
+    }
+    hk_stat("writes_before_flush", early_limit - npre);
 
     /* (2) prefix images */
     long cap = n0 + 16; for (long j = 0; j < nw; j++) if (wr_log[j].off + wr_log[j].len + 16 > cap) cap = wr_log[j].off + wr_log[j].len + 16;
     unsigned char *im = calloc(1, (size_t)cap); memcpy(im, base, (size_t)n0); long ilen = n0;
     long limit = w->flush_safe ? nw : early_limit;     /* SD/GR sessions: every image up to the start of the descriptor flush */
     int bad_open = 0, bad_obj = 0;
-    for (long j = 0; j <= limit; j++) {
-        if (j > 0) { wr_rec *r = &wr_log[j - 1]; if (r->len > 0) { memcpy(im + r->off, r->bytes, (size_t)r->len); if (r->off + r->len > ilen) ilen = r->off + r->len; } }
+    for (long j = npre; j <= limit; j++) {
+        if (j > npre) { wr_rec *r = &wr_log[j - 1]; if (r->len > 0) { memcpy(im + r->off, r->bytes, (size_t)r->len); if (r->off + r->len > ilen) ilen = r->off + r->len; } }
         spit(img, im, ilen);
         char what[256]; int rc = check_image(img, old, nold, what, sizeof what);
         hk_stat("prefix_images", 1);
-        if (rc == 1 && !bad_open) { char key[96]; snprintf(key, sizeof key, "crash-unopenable:%s", w->name); hk_fail(key, "prefix %ld of %ld writes (last write off %ld len %ld in %s): %s", j, nw, j ? wr_log[j - 1].off : 0, j ? wr_log[j - 1].len : 0, j ? wr_log[j - 1].ctx : "-", what); bad_open = 1; }
-        if (rc == 2 && !bad_obj) { char key[96]; snprintf(key, sizeof key, "crash-old-object-damaged:%s", w->name); hk_fail(key, "prefix %ld of %ld writes (last write off %ld len %ld in %s): %s", j, nw, j ? wr_log[j - 1].off : 0, j ? wr_log[j - 1].len : 0, j ? wr_log[j - 1].ctx : "-", what); bad_obj = 1; }
+        if (rc == 1 && !bad_open) { char key[96]; snprintf(key, sizeof key, "crash-unopenable:%s", w->name); hk_fail(key, "prefix %ld of %ld writes (last write off %ld len %ld in %s, context '%s'): %s", j, nw, j ? wr_log[j - 1].off : 0, j ? wr_log[j - 1].len : 0, j ? wr_log[j - 1].ctx : "-", prog, what); bad_open = 1; }
+        if (rc == 2 && !bad_obj) { char key[96]; snprintf(key, sizeof key, "crash-old-object-damaged:%s", w->name); hk_fail(key, "prefix %ld of %ld writes (last write off %ld len %ld in %s, context '%s'): %s", j, nw, j ? wr_log[j - 1].off : 0, j ? wr_log[j - 1].len : 0, j ? wr_log[j - 1].ctx : "-", prog, what); bad_obj = 1; }
     }
     for (long j = 0; j < nw; j++) { free(wr_log[j].bytes); wr_log[j].bytes = NULL; }
     free(im); free(base);
